@@ -32,11 +32,10 @@ def r1_r2_array_to(run, tree):
 
 
 def r3_vector_to(run, tree):
-    run.rule("C08.R3", "Vector.to converts every component with the same unit; receiver not written", "sibling agreement", "",
-             floor=1)
-    vi = tree.cls(VECTOR)
-    check_component_map(run, tree, tree.method(vi, "to"), VECTOR + ".to",
-                        lambda e, v, pn: norm(e) == "%s.to(%s)" % (v, pn[1]), "v.to(u) converts every component to u")
+    from . import core_folds as cf
+    run.rule("C08.R3", "Vector.to (and the other mapping methods) act on every component with the same argument", "D7 fold of the Vector class over 1-3 components", "",
+             floor=3)
+    cf.check_vector_unary_and_maps(run, tree)
 
 
 def r4_constants(run, tree):
